@@ -543,19 +543,12 @@ func (ex *Exec) inline(st *State, call ast.Node, fi *FuncInfo, recv *Val, args [
 		}
 		ctrBefore := st.ctr
 		ex.havocFor(st, ms, "deep."+sanitize(fi.Key))
-		if !ex.frameProbe || true {
-			pres := ex.preservedHeaps(fi)
-			for _, h := range ms.heapNames() {
-				if pres[h] {
-					cur := st.heapGet(h, ms.heaps[h])
-					if cur == before[h] {
-						continue
-					}
-					r := BVar("r", SInt)
-					st.assume(Forall([]*Term{r}, Implies(Lt(r, ctrBefore), Eq(Select(cur, r), Select(before[h], r))), []*Term{Select(cur, r)}))
-				}
-			}
+		var handed []Val
+		if recv != nil {
+			handed = append(handed, *recv)
 		}
+		handed = append(handed, args...)
+		ex.assumeInferredFrames(st, fi, ms, before, ctrBefore, handed)
 		return ex.havocResults(st, fi.Sig, "deep."+sanitize(fi.Key))
 	}
 	ex.prepareFunc(fi)
@@ -711,6 +704,39 @@ func (ex *Exec) applyContract(st *State, call ast.Node, c *Contract, sig *types.
 	st.assume(Ge(nc, st.ctr))
 	st.ctr = nc
 	ex.havocTargets(st, pre, targets, fmt.Sprintf("c%d", seq))
+	if fi != nil && !c.HasAssign && c.Opts["trusted"] == "" {
+		// a contract without an assigns clause says nothing about the callee's writes: everything it
+		// can write syntactically is havocked, refined by the frame inferred from its body
+		ms := ex.funcModSet(fi, 0)
+		before := map[string]*Term{}
+		for h, srt := range ms.heaps {
+			before[h] = st.heapGet(h, srt)
+		}
+		ctrBefore := pre.ctr
+		saveVars := ms.vars
+		ms.vars = map[*types.Var]bool{}
+		ex.havocFor(st, ms, fmt.Sprintf("cf%d", seq))
+		ms.vars = saveVars
+		if why := c.Opts["frame-assumed"]; why != "" {
+			// ASSUMED frame (listed in the evidence): pre-existing locations are unchanged
+			ex.assumedExt["frame of "+key+" at its call sites: "+why] = true
+			for _, h := range ms.heapNames() {
+				cur := st.heapGet(h, ms.heaps[h])
+				if cur == before[h] || before[h] == nil {
+					continue
+				}
+				r := BVar("r", SInt)
+				st.assume(Forall([]*Term{r}, Implies(Lt(r, ctrBefore), Eq(Select(cur, r), Select(before[h], r))), []*Term{Select(cur, r)}))
+			}
+		} else {
+			var handed []Val
+			if recv != nil {
+				handed = append(handed, *recv)
+			}
+			handed = append(handed, args...)
+			ex.assumeInferredFrames(st, fi, ms, before, ctrBefore, handed)
+		}
+	}
 	// results
 	var results []Val
 	rn := ex.resultNames(c, sig)
@@ -1007,6 +1033,10 @@ func (ex *Exec) havocTargets(st *State, pre *State, targets []frameTarget, tag s
 func (ex *Exec) callExtern(st *State, call *ast.CallExpr, callee *types.Func, recv *Val, args []Val) []Val {
 	key := externKey(callee)
 	sig := callee.Type().(*types.Signature)
+	if sweepMode && callee.FullName() == "time.Now" && ex.probeDepth == 0 && !ex.frameProbe {
+		// C19: the wall clock may be read only through the package variable Now (injectable)
+		ex.obligNoAssume(st, "clock", call, "direct call of time.Now", False)
+	}
 	if vs, ok := ex.specialExtern(st, call, key, callee, recv, args); ok {
 		return vs
 	}
@@ -1088,16 +1118,25 @@ func (ex *Exec) callInterface(st *State, call *ast.CallExpr, s *types.Selection,
 	}
 	ctrBefore := st.ctr
 	ex.havocFor(st, ms, "if."+sanitize(s.Obj().Name()))
-	// heaps whose pre-existing locations every implementation provably preserves (inferred frames)
+	// heaps whose pre-existing locations every implementation provably preserves (inferred frames),
+	// possibly except at the objects handed in (receiver, arguments)
+	refs := handedRefs(append([]Val{recv}, args...))
 	for _, h := range ms.heapNames() {
-		all := true
+		kind := frameFull
 		for _, fi := range impls {
-			if _, touches := ex.funcModSet(fi, 0).heaps[h]; touches && !ex.preservedHeaps(fi)[h] {
-				all = false
+			if _, touches := ex.funcModSet(fi, 0).heaps[h]; !touches {
+				continue
+			}
+			k := ex.inferredFrames(fi)[h]
+			if k == frameNone {
+				kind = frameNone
 				break
 			}
+			if k == frameParams {
+				kind = frameParams
+			}
 		}
-		if !all {
+		if kind == frameNone {
 			continue
 		}
 		cur := st.heapGet(h, ms.heaps[h])
@@ -1105,7 +1144,13 @@ func (ex *Exec) callInterface(st *State, call *ast.CallExpr, s *types.Selection,
 			continue
 		}
 		r := BVar("r", SInt)
-		st.assume(Forall([]*Term{r}, Implies(Lt(r, ctrBefore), Eq(Select(cur, r), Select(before[h], r))), []*Term{Select(cur, r)}))
+		cond := []*Term{Lt(r, ctrBefore)}
+		if kind == frameParams {
+			for _, p := range refs {
+				cond = append(cond, Neq(r, p))
+			}
+		}
+		st.assume(Forall([]*Term{r}, Implies(And(cond...), Eq(Select(cur, r), Select(before[h], r))), []*Term{Select(cur, r)}))
 	}
 	return ex.havocResults(st, sig, "if."+sanitize(s.Obj().Name()))
 }
